@@ -24,10 +24,12 @@ import (
 	"os"
 	"os/exec"
 	"path/filepath"
+	"runtime/debug"
 	"runtime/pprof"
 	"sort"
 	"strings"
 	"sync"
+	"sync/atomic"
 	"testing"
 	"time"
 
@@ -40,6 +42,25 @@ import (
 // classRPMCycle: go-rpmdb follows a cyclic overflow-page chain of a corrupt Berkeley DB until the
 // extractor's timeout (default 5 min), appending a page to the value on every round.
 const classRPMCycle = "os/rpm|bdb_overflow_cycle_timeout"
+
+// classYAMLDup: gopkg.in/yaml.v3 reports every PAIR of equal mapping keys ("mapping key ...
+// already defined"), so a document with n copies of one key line costs O(n^2) time and memory in
+// every extractor that decodes YAML.
+const classYAMLDup = "c02.yaml_duplicate_keys_quadratic"
+
+// classPEAlloc: saferwall/pe sizes its CLR metadata tables (MethodDef, MemberRef, Param ...) by
+// row counts read from the file without checking them against the file size.
+const classPEAlloc = "dotnet/pe|overrun:alloc"
+
+// classBplistCycle: groob/plist follows binary-plist object references without a cycle check.
+const classBplistCycle = "os/macapps|fatal:bplist_reference_cycle"
+
+// yamlExtractors decode their input with gopkg.in/yaml.v3.
+var yamlExtractors = map[string]bool{"dart/pubspec": true, "javascript/pnpmlock": true, "os/snap": true, "swift/podfilelock": true}
+
+// maxRepeatKnown is the largest number of copies the repeat mutator makes for YAML extractors
+// while classYAMLDup is a known finding.
+const maxRepeatKnown = 64
 
 const (
 	wallBudget  = 20 * time.Second
@@ -180,6 +201,11 @@ func genMut(t *rapid.T, e *extInfo, depth int) Mut {
 	case "insert":
 		m.A = rapid.IntRange(0, 1<<16).Draw(t, "a")
 		m.S = rapid.SampledFrom(hostileTokens).Draw(t, "s")
+	case "strprefix", "strsuffix":
+		m.A = rapid.IntRange(0, 1<<12).Draw(t, "a")
+		m.S = rapid.SampledFrom(hostileAffixes).Draw(t, "s")
+	case "strempty":
+		m.A = rapid.IntRange(0, 1<<12).Draw(t, "a")
 	case "nest":
 		m.A = rapid.IntRange(0, 1<<16).Draw(t, "a")
 		m.B = rapid.SampledFrom([]int{1, 10, 100, 1000, 5000, 10001, 40000, 59999}).Draw(t, "b")
@@ -208,6 +234,7 @@ func genMut(t *rapid.T, e *extInfo, depth int) Mut {
 }
 
 func genC02(t *rapid.T) c02Case {
+	generating.Store(true)
 	reg := Registry()
 	e := rapid.SampledFrom(reg).Draw(t, "extractor")
 	c := c02Case{Leg: "mutants", Extractor: e.Name}
@@ -233,6 +260,21 @@ func genC02(t *rapid.T) c02Case {
 	n := rapid.SampledFrom([]int{0, 1, 1, 1, 2, 2, 2, 3, 3, 4, 6}).Draw(t, "nmut")
 	for i := 0; i < n; i++ {
 		c.Muts = append(c.Muts, genMut(t, e, 0))
+	}
+	col := c02col()
+	if yamlExtractors[e.Name] && col.IsKnown(classYAMLDup) {
+		for i := range c.Muts {
+			if m := &c.Muts[i]; m.Op == "repeat" && 1<<uint(1+mod(m.B, 12)) > maxRepeatKnown {
+				col.Excluded(classYAMLDup)
+				m.B = mod(m.B, 6) // at most 2^6 copies
+			}
+		}
+	}
+	if e.Name == "os/macapps" && col.IsKnown(classBplistCycle) {
+		if data, err := c.input(); err == nil && bplistCycle(data) {
+			col.Excluded(classBplistCycle)
+			c.Muts = nil
+		}
 	}
 	c.Contain = rapid.IntRange(0, 3).Draw(t, "contain") == 0
 	if c.Contain {
@@ -265,6 +307,45 @@ var c02col = func() *ev.Collector { return ev.Get("C02") }
 
 func siteClass(ext, site string) string { return ext + "|" + site }
 
+var (
+	witnessOnce sync.Once
+	witnessSet  map[string]bool
+)
+
+// isWitness reports whether the case is the witness of a known finding: witnesses are executed
+// faithfully (their class is not suppressed) so that "still fails" can be observed.
+func isWitness(c c02Case) bool {
+	witnessOnce.Do(func() {
+		witnessSet = map[string]bool{}
+		root := os.Getenv("VERIF_ROOT")
+		if root == "" {
+			root = "/verif"
+		}
+		for _, k := range c02col().KnownList() {
+			if k.Witness == "" {
+				continue
+			}
+			p := k.Witness
+			if !filepath.IsAbs(p) {
+				p = filepath.Join(root, p)
+			}
+			var w c02Case
+			if ev.ReplayCase(p, &w) == nil {
+				b, _ := json.Marshal(w)
+				witnessSet[string(b)] = true
+			}
+		}
+	})
+	if generating.Load() {
+		return false // witnesses are replayed before the generator runs (and in --replay mode)
+	}
+	b, _ := json.Marshal(c)
+	return witnessSet[string(b)]
+}
+
+// generating is set by the first generator call: from then on cases come from rapid.
+var generating atomic.Bool
+
 func journal(c c02Case) {
 	p := os.Getenv("C02_JOURNAL")
 	if p == "" {
@@ -288,6 +369,25 @@ func propC02(c c02Case) (ev.Outcome, error) {
 		// not a path the extractor accepts (can only happen in a hand-written replay file)
 		return ev.Outcome{Classes: []string{"path_not_required"}}, nil
 	}
+	witness := isWitness(c)
+	sum := sha256.Sum256(data)
+	out := ev.Outcome{Key: c.Extractor + "\x00" + c.Path + "\x00" + hex.EncodeToString(sum[:])}
+	if c.Extractor == "os/macapps" && bplistCycle(data) && os.Getenv("C02_ISOLATED") == "" {
+		// would end in a fatal stack overflow of this process: decided in a child process
+		out.Classes = []string{"ext:" + c.Extractor + ":fatal_candidate", "result:fatal_candidate"}
+		out.NonTrivial = true
+		if col.IsKnown(classBplistCycle) && !witness {
+			col.Excluded(classBplistCycle)
+			return out, nil
+		}
+		// an endless recursion hits any stack limit: 4 MiB (the detector above only lets real cycles get here) is reached in seconds,
+		// the default 1 GiB only after many minutes of spinning
+		_, died, tail := runIsolated(c, "C02_MAXSTACK_MB=4")
+		if died {
+			return out, fmt.Errorf("Extract of %s on %s (%d bytes, binary plist with a reference cycle) kills the process with a fatal runtime error:\n%s", c.Extractor, c.Path, len(data), tail)
+		}
+		return out, nil
+	}
 	journal(c)
 	limit := wallBudget
 	explore := os.Getenv("C02_EXPLORE") != ""
@@ -298,8 +398,6 @@ func propC02(c c02Case) (ev.Outcome, error) {
 	if err != nil {
 		return ev.Outcome{}, err
 	}
-	sum := sha256.Sum256(data)
-	out := ev.Outcome{Key: c.Extractor + "\x00" + c.Path + "\x00" + hex.EncodeToString(sum[:])}
 	res := "ok_empty"
 	switch {
 	case r.Panicked:
@@ -331,15 +429,23 @@ func propC02(c c02Case) (ev.Outcome, error) {
 			exploreMu.Unlock()
 			return out, nil
 		}
-		if col.IsKnown(class) {
+		if col.IsKnown(class) && !witness {
 			col.Excluded(class)
 			return out, nil
 		}
 		return out, fmt.Errorf("Extract of %s panics at %s on %s (%d bytes): %s\n%s", c.Extractor, r.Site, c.Path, len(data), r.PanicVal, ev.TrimStack([]byte(r.Stack)))
 	}
 	if rpmShortTimeout.Load() && c.Extractor == "os/rpm" && r.Err != nil && strings.Contains(r.Err.Error(), "timed out parsing hash page") {
+		if witness {
+			return out, fmt.Errorf("Extract of os/rpm on %s (%d bytes) follows a cyclic Berkeley DB overflow-page chain until its timeout fires (300 ms in this harness, 5 min by default), growing the value by one page per round: %v (allocated %d MiB in %v)", c.Path, len(data), r.Err, r.Alloc>>20, r.Dur.Round(time.Millisecond))
+		}
 		col.Excluded(classRPMCycle)
 		out.Classes = append(out.Classes, "rpm_cycle_excluded")
+		return out, nil
+	}
+	if c.Extractor == "dotnet/pe" && !r.TimedOut && r.Dur <= wallBudget && r.Alloc > allocBudget && col.IsKnown(classPEAlloc) && !witness && !explore {
+		col.Excluded(classPEAlloc)
+		out.Classes = append(out.Classes, "pe_alloc_excluded")
 		return out, nil
 	}
 	if explore && (r.TimedOut || r.Alloc > allocBudget) {
@@ -451,7 +557,7 @@ type isoResult struct {
 
 // runIsolated executes the case in a child process. died is true when the child ended without
 // delivering a result (fatal runtime error, killed); tail is the end of its output.
-func runIsolated(c c02Case) (res isoResult, died bool, tail string) {
+func runIsolated(c c02Case, extraEnv ...string) (res isoResult, died bool, tail string) {
 	dir, err := os.MkdirTemp(scratchBase(), "c02iso-")
 	if err != nil {
 		return res, false, err.Error()
@@ -462,6 +568,7 @@ func runIsolated(c c02Case) (res isoResult, died bool, tail string) {
 	_ = os.WriteFile(cf, b, 0o644)
 	cmd := exec.Command(os.Args[0], "-test.run", "^TestC02_isolated$", "-test.count", "1", "-test.timeout", "120s")
 	cmd.Env = append(os.Environ(), "C02_ISOLATED="+cf, "C02_WORKER=1", "C02_JOURNAL=", "VERIF_STATS_OUT=", "VERIF_REPLAY=", "GOMEMLIMIT=8GiB")
+	cmd.Env = append(cmd.Env, extraEnv...)
 	var buf bytes.Buffer
 	cmd.Stdout, cmd.Stderr = &buf, &buf
 	done := make(chan error, 1)
@@ -516,6 +623,9 @@ func TestC02_isolated(t *testing.T) {
 	data, err := c.input()
 	if e == nil || err != nil {
 		t.Fatalf("bad case: %v", err)
+	}
+	if mb := ev.IntEnv("C02_MAXSTACK_MB", 0); mb > 0 {
+		debug.SetMaxStack(mb << 20)
 	}
 	limit := wallBudget + 5*time.Second
 	if os.Getenv("C02_DUMP") != "" {
